@@ -370,6 +370,58 @@ pub fn run(tier: Tier) -> i32 {
         }
     });
 
+    // ---- every shredder shipped with the crate, every shred index (data/coding split differs:
+    // 32/32 regular and AONT, 31/33 PETS, 0/64 coding-only)
+    {
+        use alpenglow::shredder::{AontShredder, CodingOnlyShredder, PetsShredder};
+        fn all_indices<S: Shredder>(cx: &Cx, name: &str, lsk: &alpenglow::crypto::signature::SecretKey) {
+            for plen in [9usize, 300, 5000] {
+                let slice = mk_slice(77, 3, plen == 300, plen >= 300, plen - if plen >= 300 { 49 } else { 9 });
+                let Ok(shreds) = S::default().shred(&slice, lsk) else {
+                    cx.report.violation(format!("C19:shredder-refuses-fitting-slice:{name}"), format!("payload {plen}"), json!({"shredder": name}));
+                    continue;
+                };
+                let mut decoded: Vec<Option<alpenglow::shredder::ValidatedShred>> = Vec::new();
+                for (i, s) in shreds.iter().enumerate() {
+                    exercise(cx, &format!("shred/{name}/payload{plen}/index{i}"), s.as_shred(), true, false);
+                    // the decoded message is the message that was sent
+                    match Shred::dec(&s.as_shred().enc()) {
+                        Ok(back) => {
+                            if format!("{back:?}") != format!("{:?}", s.as_shred()) {
+                                cx.report.violation(
+                                    format!("C19:roundtrip-not-equal:shred/{name}"),
+                                    format!("{name} shredder, payload {plen}, shred {i}: the decoded shred differs from the one that was encoded"),
+                                    json!({"shredder": name, "payload": plen, "index": i}),
+                                );
+                            }
+                            decoded.push(alpenglow::shredder::ValidatedShred::try_new(back, None, &lsk.to_pk()).ok());
+                        }
+                        Err(_) => decoded.push(None),
+                    }
+                }
+                // and a receiver can use what it decoded: either half of the decoded shreds restores the slice
+                for keep in [0..32usize, 32..64] {
+                    let mut arr: [Option<alpenglow::shredder::ValidatedShred>; 64] = [const { None }; 64];
+                    for i in keep.clone() {
+                        arr[i] = decoded[i].clone();
+                    }
+                    let ok = catch(std::panic::AssertUnwindSafe(|| S::default().deshred(&mut arr).map(|r| { let sl: &alpenglow::types::Slice = &r; sl == &slice }))).ok().and_then(|r| r.ok()).unwrap_or(false);
+                    if !ok {
+                        cx.report.violation(
+                            format!("C19:decoded-shreds-do-not-restore-the-slice:{name}"),
+                            format!("{name} shredder, payload {plen}: shreds {keep:?} after encode + decode do not restore the slice they were cut from"),
+                            json!({"shredder": name, "payload": plen}),
+                        );
+                    }
+                }
+            }
+        }
+        all_indices::<RegularShredder>(&cx, "regular", &lsk);
+        all_indices::<AontShredder>(&cx, "aont", &lsk);
+        all_indices::<PetsShredder>(&cx, "pets", &lsk);
+        all_indices::<CodingOnlyShredder>(&cx, "coding-only", &lsk);
+    }
+
     // ---- repair requests / responses, transactions
     let bid = (Slot::new(77), bh("repair-block"));
     let proof_roots: Vec<alpenglow::crypto::merkle::SliceRoot> =
